@@ -72,6 +72,32 @@ chk("C19", "model_checking", "xs", "5/C19", "explicit-state exploration of the r
     "10-operation alphabet over 5 values (equal-by-key pairs, a value unequal to itself): returned index, freshness, lookup of the new and of every earlier token after every step.",
     "Closure key is the full stored sequence, so no merging assumption.")
 
+# as-built extensions (rounds 4-8 of the seeded-change campaign, DESIGN.md 13.1 / 13.3), appended to the level text
+ADD = {
+ "C01": "As built it also runs, over the whole C03 corruption universe (2.5M binaries quick), a grammar-free oracle on everything the loader accepts and the full layout oracle on everything the reference acceptor accepts as well; every ordered pair of the 787 opcodes as neighbours; U-scale / U-pattern shapes; second-use comparisons. One known finding (F12).",
+ "C02": "As built: + U-scale shapes (strings to 262 131 bytes, operand lists to 65 53x), U-pattern shapes (middle elements, three-bit masks, bit patterns, all ids equal, nested enumerant parameters), typed literals under six id relabellings, behind function boundaries, behind 300 types, with an FP-encoding float; comparison through the model, not the subject's PartialEq.",
+ "C03": "As built the universe also holds whole-instruction duplications, unterminated strings, U-scale seeds, ext-inst seeds for every number of both sets with 0-5 operands, typed-literal contexts under id relabellings / behind functions / behind N types for every N <= 70 / typed by function-local values, and every ordered pair of opcodes unmodified.",
+ "C04": "As built: + every binary also parsed from a slice that starts off a word boundary (differential), exhaustive narrow typed constants through the disassembler, numeric edges in the decoder alphabet.",
+ "C05": "As built: + every ordered pair of opcodes in a block and at module level, every shape of every module-level opcode in front of a function with ids collapsed onto {1,2} and {1}, every capability x every opcode, Loader::default() and load_bytes differentials.",
+ "C06": "As built: + insertion points FromBegin/FromEnd 0..2, unlabelled blocks, two blocks, re-selected terminated blocks and functions, typed functions, four predecessor instructions, wide strings, narrow and 64-bit typed literals; history closure with 27 calls and three prebuilt roots.",
+ "C07": "As built: + every 16-bit pattern x 3-6 high halves behind each narrow type (injectivity), an f64 sweep around exactly-widened floats, import histories, class sequences to length 3, typed constants under id relabellings, second disassembly equal to the first.",
+ "C08": "As built the quick tier also sweeps bit-pattern variants of every declared value and every number that agrees with a declared value in its low 16 bits.",
+ "C09": "As built: + every ordered pair of core-table lookups (lookup_opcode and get), interleaved lookups of every number through both ext-inst tables.",
+ "C10": "As built: 60+ operations (FP-encoding floats, use-before-declaration, function boundaries), seven id schemes, a depth-4/5 enumeration over a reduced alphabet under every scheme, long histories with N further tracked ids for every N <= 300 and around 2^16, two instructions behind every malformed one.",
+ "C11": "As built: 21 requests with numeric edges, byte alphabets {00,C3,A9}, {00,01,80,81}, {00,EF,BB,BF,61}, every buffer also 1-3 bytes off a word boundary, and the same model on buffers with strings of 2^16, 2^18, 2^24 (+-) bytes.",
+ "C12": "As built: 44-call alphabet (select_function_by_name, name, find_return_block_indices, imports, linkage decorations, explicit function ids), continuations of depth 3/4 from ten prebuilt modules, and a per-method sweep of all 1149 methods in eight contexts.",
+ "C13": "As built: + Reload through assemble -> load, forward-reference declarations, X-Y-X triples over all 64 type methods, operands that are ids of earlier constants, modules adopted with a result-less declaration, lines between requests.",
+ "C14": "As built the whole C03 corruption universe is driven through the scripted consumer (expected callbacks from the reference acceptor) with three scripts each, through parse_bytes and parse_words.",
+ "C15": "As built: + exact copies of instructions as neighbours, all 787 opcodes, every ordered opcode pair in a block and a section, every operand shape of every opcode in three blocks, seven header versions x every opcode in every section, sizes 255 ... 65 537, second assembly and assemble_into on a non-empty vector.",
+ "C16": "As built the Builder half drives every method in 30+ configurations (see C06) and counts a termination instruction that is refused, misplaced or not emitted as not ending the block.",
+ "C17": "As built: + every instruction that can host a parameterised kind, alias rewrites (an id rewritten to the value of another id operand) on every opcode, string payloads with NULs / blanks / 70 000 bytes through From<String> and From<&str>.",
+ "C18": "As built: + well-typed op-sourced phis, phis in the first block and behind operations, float / unsigned constants, every capability x addressing x memory model, every generator word x every liftable opcode, U-pattern shapes, lifting twice.",
+ "C19": "As built: 9 values incl. asymmetric and tolerance equality, prefilled storages to 140 values, generic value types (zero-sized, String, large, f32, Cow with cross-variant equality, an equality that panics), storages of 255 ... 131 073 values, every operation repeated 8 ... 256 times between all short prefixes and continuations.",
+ "C20": "As built: 25k files quick incl. every unmodified seed, class sequences, string tails in partial words, short files with foreign first words, outputs of 1 B ... 256 KiB per line and multi-byte characters across every 64 KiB phase, exhaustive narrow constants; plus an in-process prefilter over the whole universe whose panics are handed to the real tool.",
+}
+for pid, t in ADD.items():
+    C[pid]["level_claimed"]["text"] += " " + t
+
 m = {"version": 1, "setup_cmd": "bin/setup",
      "hooks": {"guard": "rspirv_verif", "enable": "none needed: every observation is made through the public API (DESIGN.md section 8); the cfg name is reserved",
                "baseline_off_cmd": "cd /repo && cargo test --workspace --no-fail-fast --offline", "source_commits": [], "add_only": True},
